@@ -1,3 +1,173 @@
+(* C03 — broadcast: a waiter never misses a broadcast issued after it sampled the state.
+   Statements only.  "For every number of waiters and broadcasters and every interleaving" = for every list of
+   events of the gate-level model Bcast/Model.v: any number of HoldLock / TryHoldLock / HoldLockMaybeAsync calls
+   whose callbacks run arbitrary programs of broadcast(), getWaitCh() and writes of the guarded value, any number
+   of Wait calls, critical sections in any order, wake-ups and cancellations placed anywhere (in particular a
+   broadcast between a waiter's predicate check and its blocking receive: the waiter is then PExit / PBlocked with
+   a closed channel; and a cancellation racing with a broadcast: both Wake and CancelWake are enabled).
+   Ghost fields of the model: [snb] counts broadcast() calls, [slog] lists every channel handed to a callback
+   together with the broadcast count at that moment, [sdirty] = the guarded value was written since the last broadcast. *)
 From Util Require Import Common.Base Common.ListLemmas Bcast.Model Bcast.Spec Bcast.Proofs.
-Example c03_stub : run [] = init.
-Proof. reflexivity. Qed.
+
+(* ---------------- channel algebra (unconditional) ---------------- *)
+
+(* a handed-out channel is closed exactly when a broadcast has been performed since it was handed out *)
+Theorem c03_channel_closed_iff_broadcast_since : forall es c k,
+  In (c, k) (slog (run es)) -> (closed (sb (run es)) c = true <-> k < snb (run es)).
+Proof. exact log_closed_iff. Qed.
+Print Assumptions c03_channel_closed_iff_broadcast_since.
+
+(* a channel obtained in a critical section is closed by the first broadcast performed later (in whatever section,
+   by whatever caller): as soon as the broadcast count has grown at all *)
+Theorem c03_first_later_broadcast_closes : forall es es' c k,
+  In (c, k) (slog (run es)) -> snb (run es) < snb (run (es ++ es')) -> closed (sb (run (es ++ es'))) c = true.
+Proof. exact first_later_broadcast_closes. Qed.
+Print Assumptions c03_first_later_broadcast_closes.
+
+(* a channel obtained after the k-th broadcast stays open for as long as no further broadcast is performed *)
+Theorem c03_channel_after_broadcast_open_until_next : forall es es' c k,
+  In (c, k) (slog (run es)) -> snb (run (es ++ es')) = k -> closed (sb (run (es ++ es'))) c = false.
+Proof. exact open_until_next_broadcast. Qed.
+Print Assumptions c03_channel_after_broadcast_open_until_next.
+
+(* a closed channel never reopens *)
+Theorem c03_closed_monotone : forall es es' c,
+  closed (sb (run es)) c = true -> closed (sb (run (es ++ es'))) c = true.
+Proof. exact closed_monotone. Qed.
+Print Assumptions c03_closed_monotone.
+
+(* ---------------- Wait ---------------- *)
+
+(* Wait returns nil only after its predicate returned true: the call returned in its own critical section [Sect a],
+   taken in a state whose guarded value makes the predicate true, and that step left the value unchanged *)
+Theorem c03_wait_nil_only_after_pred_true : forall es a x pk k slow,
+  nth_error (acts (run es)) a = Some x -> ak x = KWait pk k slow -> apc x = PRet 3 ->
+  exists es1 es2, es = es1 ++ Sect a :: es2 /\ evalp pk k (sg (run es1)) = PTrue /\
+                  sg (run (es1 ++ [Sect a])) = sg (run es1).
+Proof. exact wait_nil_history. Qed.
+Print Assumptions c03_wait_nil_only_after_pred_true.
+
+(* Wait returns exactly the predicate's error (status 10+e is "returned error number e") ... *)
+Theorem c03_wait_error_passthrough : forall es a x pk k slow e,
+  nth_error (acts (run es)) a = Some x -> ak x = KWait pk k slow -> apc x = PRet (10 + e) ->
+  exists es1 es2, es = es1 ++ Sect a :: es2 /\ evalp pk k (sg (run es1)) = PErr e /\
+                  sg (run (es1 ++ [Sect a])) = sg (run es1).
+Proof. exact wait_err_history. Qed.
+Print Assumptions c03_wait_error_passthrough.
+
+(* ... and conversely the critical section of a Wait call returns what the predicate says on the guarded value:
+   nil on true, the error on an error, and otherwise it does not return (unless its context is cancelled) *)
+Theorem c03_wait_section_result : forall s a x pk k slow,
+  nth_error (acts s) a = Some x -> ak x = KWait pk k slow -> apc x = PGate -> sheld s = false ->
+  exists x', nth_error (acts (step s (Sect a))) a = Some x' /\
+    match evalp pk k (sg s) with
+    | PTrue => apc x' = PRet 3
+    | PErr e => apc x' = PRet (10 + e)
+    | PFalse => apc x' = PExit \/ apc x' = PBlocked \/ (apc x' = PRet 4 /\ acanc x = true)
+    end.
+Proof. exact wait_section_result. Qed.
+Print Assumptions c03_wait_section_result.
+
+(* Wait returns context.Canceled only if its context was cancelled: by a cancel event for this call, or because the
+   call was made with an already cancelled context *)
+Theorem c03_wait_canceled_only_if_cancelled : forall es a x pk k slow,
+  nth_error (acts (run es)) a = Some x -> ak x = KWait pk k slow -> apc x = PRet 4 ->
+  acanc x = true /\
+  (In (CancelCtx a) es \/
+   exists pk' k' slow' es1 es2, es = es1 ++ CallWait pk' k' true slow' :: es2 /\ length (acts (run es1)) = a).
+Proof.
+  intros es a x pk k slow Hx Hk Hr. pose proof (wait_canceled_flag es a x pk k slow Hx Hk Hr) as Hc.
+  split; [exact Hc | exact (cancel_provenance es a x Hx Hc)].
+Qed.
+Print Assumptions c03_wait_canceled_only_if_cancelled.
+
+(* ---------------- no lost wake-up ---------------- *)
+
+(* every actor holding a sample (channel c taken when the guarded value was v) — in particular every actor blocked
+   on c, and every blocked actor has one — : c is closed, or the value is still v, or somebody wrote the value
+   without broadcasting afterwards *)
+Theorem c03_blocked_waiter_sampled_state : forall es a x,
+  nth_error (acts (run es)) a = Some x ->
+  (apc x = PBlocked \/ apc x = PExit -> exists c v, samp x = Some (c, v)) /\
+  (forall c v, samp x = Some (c, v) ->
+     c < nxt (sb (run es)) /\ (closed (sb (run es)) c = true \/ sg (run es) = v \/ sdirty (run es) = true)).
+Proof.
+  intros es a x Hx. split; [exact (blocked_has_sample es a x Hx) | intros c v; exact (blocked_sampled_state es a x c v Hx)].
+Qed.
+Print Assumptions c03_blocked_waiter_sampled_state.
+
+(* under the client discipline "every callback that writes the guarded value broadcasts afterwards" (a boolean on
+   the event list) the third alternative disappears *)
+Theorem c03_disciplined_blocked_waiter_sampled_state : forall es a x c v,
+  all_disc es = true -> nth_error (acts (run es)) a = Some x -> samp x = Some (c, v) ->
+  closed (sb (run es)) c = true \/ sg (run es) = v.
+Proof. exact disc_blocked_sampled_state. Qed.
+Print Assumptions c03_disciplined_blocked_waiter_sampled_state.
+
+(* "never stays blocked while the guarded state satisfies the predicate", as quiescence safety: under the discipline,
+   in every reachable state in which no actor can move, a blocked Wait call's predicate is false (neither true nor an error) *)
+Theorem c03_quiescent_blocked_waiter_pred_false : forall es a x pk k slow,
+  all_disc es = true -> quiescent (run es) = true ->
+  nth_error (acts (run es)) a = Some x -> ak x = KWait pk k slow -> apc x = PBlocked ->
+  evalp pk k (sg (run es)) = PFalse.
+Proof. exact quiescent_blocked_waiter_pred_false. Qed.
+Print Assumptions c03_quiescent_blocked_waiter_pred_false.
+
+(* nor is a cancelled Wait call left blocked *)
+Theorem c03_quiescent_cancelled_not_blocked : forall es a x pk k slow,
+  quiescent (run es) = true -> nth_error (acts (run es)) a = Some x -> ak x = KWait pk k slow -> acanc x = true ->
+  apc x <> PBlocked.
+Proof. exact quiescent_cancelled_not_blocked. Qed.
+Print Assumptions c03_quiescent_cancelled_not_blocked.
+
+(* ---------------- monitors and model ---------------- *)
+
+(* for EVERY list of harness events: on the observations the model itself produces (eager schedule of Spec.hstep; the
+   run stops at the first event the model does not accept) no clause of the property-3 monitors is ever false *)
+Theorem c03_model_satisfies_monitors : forall evs,
+  monitor mon 0 minit [] evs (run_obs hstep init evs) = [].
+Proof. exact model_satisfies_monitors. Qed.
+Print Assumptions c03_model_satisfies_monitors.
+
+(* hence the extracted checker reports nothing at all on any history that the model accepts completely *)
+Theorem c03_model_run_check_clean : forall evs,
+  length (run_obs hstep init evs) = length evs -> run_check_bcast [] evs (run_obs hstep init evs) = [].
+Proof. exact model_run_check_clean. Qed.
+Print Assumptions c03_model_run_check_clean.
+
+(* ---------------- non-vacuity ---------------- *)
+
+(* a channel taken, a later section broadcasts: closed; a channel taken after that: open; both logged *)
+Example c03_example_channels :
+  let s := run [CallClient 0 [OGet] false false; Sect 0; CallClient 0 [OSet 1; OBcast; OGet] false false; Sect 1] in
+  slog s = [(0, 0); (1, 1)] /\ snb s = 1 /\ closed (sb s) 0 = true /\ closed (sb s) 1 = false.
+Proof. vm_compute. repeat split; reflexivity. Qed.
+
+(* a disciplined history reaching a quiescent state with a blocked waiter (g = 1, waiting for g >= 2) *)
+Example c03_example_quiescent_blocked :
+  let es := [CallWait 0 2 false false; Sect 0; CallClient 0 [OInc; OBcast] false false; Sect 1; Wake 0; Sect 0] in
+  all_disc es = true /\ quiescent (run es) = true /\ cnt blocked (acts (run es)) = 1 /\ sg (run es) = 1%N.
+Proof. vm_compute. repeat split; reflexivity. Qed.
+
+(* the same waiter returns nil after a second increment; an error predicate; a cancelled waiter *)
+Example c03_example_wait_results :
+  let es := [CallWait 0 2 false false; CallWait 2 2 false false; CallWait 1 9 false true; Sect 0; Sect 1; Sect 2;
+             CallClient 1 [OInc; OInc; OBcast] false false; Wake 0; Wake 1; Sect 0; Sect 1;
+             CancelCtx 2; ExitGate 2; CancelWake 2] in
+  map (fun x => code_pc (apc x)) (acts (run es)) = [3; 12; 4; 3]%N.
+Proof. vm_compute. reflexivity. Qed.
+
+(* without the discipline the invariant's third alternative is needed: a waiter blocked although its predicate holds *)
+Example c03_example_undisciplined_lost_wakeup :
+  let es := [CallWait 0 1 false false; Sect 0; CallClient 0 [OInc] false false; Sect 1] in
+  all_disc es = false /\ quiescent (run es) = true /\ sdirty (run es) = true /\
+  exists x, nth_error (acts (run es)) 0 = Some x /\ apc x = PBlocked /\ evalp 0 1 (sg (run es)) = PTrue.
+Proof. vm_compute. repeat split; try reflexivity. eexists. repeat split; reflexivity. Qed.
+
+(* the monitors accept the model's own observations on a history that exercises every event kind *)
+Example c03_example_monitors_accept_model :
+  let evs := [[2; 0; 2; 0; 1]; [1; 0; 1; 0; 1; 2; 0]; [3; 0]; [3; 1]; [1; 1; 0; 0; 1]; [1; 2; 0; 0; 2; 0; 1]; [6; 0]; [5; 1];
+              [3; 3]; [2; 2; 2; 0; 0]; [3; 4]; [4; 0]; [3; 0]; [1; 0; 0; 1; 1]; [3; 5]; [1; 1; 0; 0; 0]]%N in
+  let obss := run_obs hstep init evs in
+  length obss = length evs /\ run_check_bcast [] evs obss = [].
+Proof. vm_compute. split; reflexivity. Qed.
